@@ -38,7 +38,7 @@ def run():
     for i in range(n_docs):
         doc = gen.gen_document(rnd, n_contracts=rnd.randrange(1, 3), kinds=["mem", "symm", "symm", "grammar", "rule", "split", "long", "dupterms"])
         inputs.append((doc, optsets[i % len(optsets)], "generated document %d" % i))
-    shipped = sorted(glob.glob("/repo/examples/jsons-solc/*.json_solc"), key=os.path.getsize)[:(1 if quick else 4)]
+    shipped = sorted(glob.glob(os.environ.get("GASOL_VERIF_REPO", "/repo") + "/examples/jsons-solc/*.json_solc"), key=os.path.getsize)[:(1 if quick else 4)]
     for p in shipped:
         with open(p) as f:
             inputs.append((json.load(f), ["-greedy"], "shipped " + os.path.basename(p)))
